@@ -102,8 +102,9 @@ def job_trio(job):
     progs = ref.multisets(alleles, k)
     lam_ps = LAMS if (tau_p == 2 and pl_p) else [0.0]
     lam_qs = LAMS if (tau_q == 2 and pl_q) else [0.0]
-    errs_p = ERRS if pl_p and tau_p else [1.0]
-    errs_q = ERRS if pl_q and tau_q else [1.0]
+    # a known parent with tau = 0 (clone / unreduced gamete from the other side) still carries the user's error rate; it must not matter
+    errs_p = ERRS if pl_p and tau_p else ([1.0] if not pl_p else [0.0, 0.2, 1.0])
+    errs_q = ERRS if pl_q and tau_q else ([1.0] if not pl_q else [0.0, 0.2, 1.0])
     tag0 = "A=%d|ploidy=(%d,%d)|tau=(%d,%d)|freq=%d" % (nA, pl_p, pl_q, tau_p, tau_q, fi)
     for lam_p in lam_ps:
         for lam_q in lam_qs:
